@@ -3,6 +3,6 @@ import SaoVerif.Properties.C08Footprint
     (`C20_*` there) are part of this property's proof obligations: a change that breaks them breaks C20. -/
 namespace SaoVerif
 theorem C20_footprint (e : Env) (y : Sys) (op : Op)
-    (h1 : ∀ c v a, op ≠ .delegate c v a) (h2 : ∀ c v a, op ≠ .undelegate c v a) :
-    (step e y op).2.st.staking = y.st.staking := C20_stakes_change_only_by_staking_messages e y op h1 h2
+    (h1 : ∀ c v a, op ≠ .delegate c v a) (h2 : ∀ c v a, op ≠ .undelegate c v a) (h2r : ∀ c v w a, op ≠ .redelegate c v w a) :
+    (step e y op).2.st.staking = y.st.staking := C20_stakes_change_only_by_staking_messages e y op h1 h2 h2r
 end SaoVerif
